@@ -140,6 +140,27 @@ func c01Apply(w *world.World, e c01Event) c01Step {
 			v := map[string]string{"urn-uuid": "urn:uuid:" + target, "braces": "{" + target + "}", "dashless": strings.ReplaceAll(target, "-", "")}[e.A]
 			req = world.NewRequest("GET", "", path, url.Values{"id": {v}}, "", nil)
 			named = []string{v}
+		case "pct-encoded", "pct-first", "nul-suffix", "lf-suffix", "query-suffix", "fragment-suffix", "plus-prefix":
+			// the NAMED id is a string that merely looks like / decodes further to the stored id; it is sent correctly escaped
+			var sb strings.Builder
+			for i := 0; i < len(target); i++ {
+				fmt.Fprintf(&sb, "%%%02X", target[i])
+			}
+			v := map[string]string{"pct-encoded": sb.String(), "pct-first": sb.String()[:3] + target[1:], "nul-suffix": target + "\x00", "lf-suffix": target + "\n",
+				"query-suffix": target + "?id=x", "fragment-suffix": target + "#f", "plus-prefix": "+" + target}[e.A]
+			if e.K%2 == 0 {
+				req = world.NewRequest("GET", "", path, url.Values{"id": {v}}, "", nil)
+			} else {
+				req = world.NewRequest("POST", "", path, nil, "application/x-www-form-urlencoded", []byte(url.Values{"id": {v}}.Encode()))
+			}
+			named = []string{v}
+		case "semicolon":
+			req = world.RawRequest("GET", "", path, "id="+url.QueryEscape(target)+";x=1", "", nil)
+			named = []string{target, target + ";x=1"}
+		case "multipart":
+			body := "--BOUND\r\nContent-Disposition: form-data; name=\"id\"\r\n\r\n" + target + "\r\n--BOUND--\r\n"
+			req = world.NewRequest("POST", "", path, nil, "multipart/form-data; boundary=BOUND", []byte(body))
+			named = []string{target}
 		case "unknown":
 			req = world.NewRequest("GET", "", path, url.Values{"id": {"no-such-session"}}, "", nil)
 			named = []string{"no-such-session"}
@@ -264,7 +285,8 @@ func c01Menu(n, cap int, armed bool) []c01Event {
 	}
 	for k := 0; k < n; k++ {
 		out = append(out, c01Event{Kind: "complete", K: k})
-		for _, pl := range []string{"get-query", "post-body", "body-and-query-differ", "two-values", "header-only", "padded", "upper-case", "urn-uuid", "braces", "dashless"} {
+		for _, pl := range []string{"get-query", "post-body", "body-and-query-differ", "two-values", "header-only", "padded", "upper-case", "urn-uuid", "braces", "dashless",
+			"pct-encoded", "pct-first", "nul-suffix", "lf-suffix", "query-suffix", "fragment-suffix", "plus-prefix", "semicolon", "multipart"} {
 			out = append(out, c01Event{Kind: "callback", A: pl, K: k})
 		}
 	}
@@ -443,7 +465,7 @@ func runC01(ctx Ctx) int {
 		}
 	}
 	run := ev.NewRun("C01")
-	run.Rule = "E2: breadth-first search over event histories on the real provider: events = SSO acceptance (POST/Redirect), injected pending records (binding POST/Redirect/none/Artifact x consumer URL registered/empty, and records reusing the first session's SP-chosen request ID and RelayState), login completion of any session, callback of any session in 10 id placements / spellings (GET query, POST body, body and query naming different sessions, two id values, id in a header only, padded, upper-cased, urn:uuid: prefix, braces, dash-less; stored ids are UUID-shaped) plus unknown / empty / absent id, and arming a one-shot storage failure (user info, entity lookup, signing key error / key without certificate / garbage certificate / zero key / certificate of another key; an error returned together with a usable value by the key, user-info, entity and request lookups); states are deduplicated by a canonical key (sessions in creation order: binding, consumer-URL-empty, done, user; armed fault) and every transition, including self-loops, is executed by replaying the shortest history on a fresh provider and judged; every state is additionally extended by callback(k) ; callback(any) and by callback(k) ; arm(any storage failure) ; callback(j) so that state kept inside the IdP between requests shows. E3 (controlled scheduler; scheduling points before every statement of every repository function, at every function entry and storage call): callback(i) || complete(i) with unbounded preemptions (both bindings), callback(i) || callback(j) || complete(j) at preemption bound 2 (quick) / 3 (thorough) at function-entry granularity and at bound 1 / 2 at statement granularity, two callbacks of one user (one pending, one done) at bound 2"
+	run.Rule = "E2: breadth-first search over event histories on the real provider: events = SSO acceptance (POST/Redirect), injected pending records (binding POST/Redirect/none/Artifact x consumer URL registered/empty, and records reusing the first session's SP-chosen request ID and RelayState), login completion of any session, callback of any session in 19 id placements / spellings (GET query, POST body, body and query naming different sessions, two id values, id in a header only, padded, upper-cased, urn:uuid: prefix, braces, dash-less, an id that is the percent-encoding of the stored id (wholly / first character), NUL / LF / ?query / #fragment suffix, + prefix, ;-separated pair, multipart form; stored ids are UUID-shaped) plus unknown / empty / absent id, and arming a one-shot storage failure (user info, entity lookup, signing key error / key without certificate / garbage certificate / zero key / certificate of another key; an error returned together with a usable value by the key, user-info, entity and request lookups); states are deduplicated by a canonical key (sessions in creation order: binding, consumer-URL-empty, done, user; armed fault) and every transition, including self-loops, is executed by replaying the shortest history on a fresh provider and judged; every state is additionally extended by callback(k) ; callback(any) and by callback(k) ; arm(any storage failure) ; callback(j) so that state kept inside the IdP between requests shows. E3 (controlled scheduler; scheduling points before every statement of every repository function, at every function entry and storage call): callback(i) || complete(i) with unbounded preemptions (both bindings), callback(i) || callback(j) || complete(j) at preemption bound 2 (quick) / 3 (thorough) at function-entry granularity and at bound 1 / 2 at statement granularity, two callbacks of one user (one pending, one done) at bound 2"
 	run.Assume = []string{"<= 2 sessions and depth 5 (quick), <= 3 sessions and depth 6 (thorough); the canonical key keeps, of request ID and RelayState, only whether a session reuses the first session's values"}
 	if ctx.Replay != "" {
 		var rp c01ReplayT
